@@ -334,6 +334,9 @@ impl Check {
                         let mut runner = TestRunner::new(config);
                         let stats = RefCell::new(ShardStats::default());
                         let failed = std::cell::Cell::new(false);
+                        // the most recent input that really failed (for failures that depend on
+                        // something outside the choices: thread interleaving, hash seeds)
+                        let last_fail: RefCell<Option<(Vec<u64>, Fail)>> = RefCell::new(None);
                         let strat = pvec(any::<u64>(), min_len..max_len.max(min_len + 1));
                         let res = runner.run(&strat, |choices| {
                             if stop.load(Ordering::Relaxed) && !failed.get() {
@@ -391,7 +394,9 @@ impl Check {
                                 Err(f) => {
                                     failed.set(true);
                                     stop.store(true, Ordering::Relaxed);
-                                    Err(TestCaseError::fail(f.key))
+                                    let key = f.key.clone();
+                                    *last_fail.borrow_mut() = Some((choices.clone(), f));
+                                    Err(TestCaseError::fail(key))
                                 }
                             }
                         });
@@ -401,7 +406,14 @@ impl Check {
                                 let (_, r) = run_case(case, &shrunk, true);
                                 match r {
                                     Err(f) => Some((shrunk, f)),
-                                    Ok(()) => Some((shrunk, Fail::new("nondeterministic", "shrunk case passed on re-run"))),
+                                    Ok(()) => match last_fail.borrow_mut().take() {
+                                        // keep the failure as observed; the replay file holds the input that produced it
+                                        Some((ch, mut f)) => {
+                                            f.msg = format!("{} [observed once; the same input passed when run again: the outcome depends on scheduling or hashing outside the input]", f.msg);
+                                            Some((ch, f))
+                                        }
+                                        None => Some((shrunk, Fail::new("nondeterministic", "shrunk case passed on re-run"))),
+                                    },
                                 }
                             }
                             Err(TestError::Abort(why)) => {
